@@ -112,6 +112,9 @@ func execSigForks(c *ctx, in ev) []ev {
 		if kd := gB(in, "d"); len(kd) > 0 { // a key made for this signature
 			key, _ = ecdsa.CreateKey(curve, kd)
 		}
+		if qx := gB(in, "qx"); len(qx) > 0 { // a public key given by its coordinates (no private key known)
+			key = &ecdsa.PrivateKey{PublicKey: ecdsa.PublicKey{Curve: curve, X: new(big.Int).SetBytes(qx), Y: new(big.Int).SetBytes(gB(in, "qy"))}}
+		}
 		d := gB(in, "digest")
 		r := new(big.Int).SetBytes(gB(in, "r"))
 		s := new(big.Int).SetBytes(gB(in, "s"))
@@ -369,6 +372,41 @@ var edNonCanonical = []string{
 	"ecffffffffffffffffffffffffffffffffffffffffffffffffffffffffffffff", // y = -1, x = 0, sign bit set
 }
 
+// wrapCase builds, for one curve, a VALID signature whose point u1*G + u2*Q has an x-coordinate in [N, p): the
+// verifier must reduce x modulo N before comparing it with r (= x - N, a small number). Such points are reached by
+// honest signatures with probability about 2^-128, so the key is made for the signature: pick R with x = N + i on the
+// curve, a digest and s, and solve Q = u2^-1 * (R - u1*G).
+func wrapCase(curve elliptic.Curve, digest []byte, sv *big.Int, start int64) (qx, qy, r *big.Int, ok bool) {
+	P, N, B := curve.Params().P, curve.Params().N, curve.Params().B
+	for i := start; i < start+4000; i++ {
+		x := new(big.Int).Add(N, big.NewInt(i))
+		if x.Cmp(P) >= 0 {
+			return nil, nil, nil, false
+		}
+		// y^2 = x^3 - 3x + b
+		y2 := new(big.Int).Exp(x, big.NewInt(3), P)
+		y2.Sub(y2, new(big.Int).Mul(big.NewInt(3), x))
+		y2.Add(y2, B)
+		y2.Mod(y2, P)
+		y := new(big.Int).ModSqrt(y2, P)
+		if y == nil {
+			continue
+		}
+		r = big.NewInt(i)
+		e := new(big.Int).SetBytes(digest) // the digest is shorter than the order: no truncation
+		sInv := new(big.Int).ModInverse(sv, N)
+		u1 := new(big.Int).Mod(new(big.Int).Mul(e, sInv), N)
+		u2 := new(big.Int).Mod(new(big.Int).Mul(r, sInv), N)
+		u2Inv := new(big.Int).ModInverse(u2, N)
+		ax, ay := curve.ScalarMult(x, y, u2Inv.Bytes())
+		k := new(big.Int).Mod(new(big.Int).Neg(new(big.Int).Mul(u1, u2Inv)), N)
+		bx, by := curve.ScalarBaseMult(k.Bytes())
+		qx, qy = curve.Add(ax, ay, bx, by)
+		return qx, qy, r, true
+	}
+	return nil, nil, nil, false
+}
+
 func genSigForks(c *ctx, emit func(ev)) {
 	r := newRand(c.seed, "sigforks")
 	want := func(s string) bool { return c.arg == "" || strings.Contains(","+c.arg+",", ","+s+",") }
@@ -421,6 +459,15 @@ func genSigForks(c *ctx, emit func(ev)) {
 					emit(ev{"op": "VerifyRS", "curve": cname, "digest": B(dg), "d": B(dk.Bytes()), "r": B(rt.Bytes()), "rneg": false, "s": B(st.Bytes()), "sneg": false, "valid": true, "cls": "tiny-s"})
 					emit(ev{"op": "VerifyRS", "curve": cname, "digest": B(dg), "d": B(dk.Bytes()), "r": B(rt.Bytes()), "rneg": false, "s": B(add(st, N).Bytes()), "sneg": false, "valid": false, "cls": "tiny-s+N"})
 					emit(ev{"op": "VerifyRS", "curve": cname, "digest": B(dg), "d": B(dk.Bytes()), "r": B(add(rt, N).Bytes()), "rneg": false, "s": B(st.Bytes()), "sneg": false, "valid": false, "cls": "r+N,tiny-s"})
+				}
+				// valid signatures whose point has an x-coordinate in [N, p): r = x - N
+				for wi := int64(1); wi <= 3; wi++ {
+					wd := randBytes(r, 20)
+					ws := new(big.Int).Add(new(big.Int).Mod(new(big.Int).SetBytes(randBytes(r, 40)), new(big.Int).Sub(N, big.NewInt(2))), big.NewInt(1))
+					if qx, qy, wr, ok := wrapCase(curve, wd, ws, wi*5000); ok {
+						emit(ev{"op": "VerifyRS", "curve": cname, "digest": B(wd), "qx": B(qx.Bytes()), "qy": B(qy.Bytes()), "r": B(wr.Bytes()), "rneg": false,
+							"s": B(ws.Bytes()), "sneg": false, "valid": true, "cls": "x-wraps-N"})
+					}
 				}
 				// the same signature against another digest
 				emit(ev{"op": "VerifyRS", "curve": cname, "digest": B(randBytes(r, 32)), "r": B(rr.Bytes()), "rneg": false, "s": B(ss.Bytes()), "sneg": false, "valid": false, "cls": "other-digest"})
@@ -599,6 +646,32 @@ func genSigForks(c *ctx, emit func(ev)) {
 								}
 							}
 						}
+					}
+				}
+			}
+			// the whole range of S under the identity key ([S]B = R holds for R = [S]B whatever the message): every power
+			// of two and its neighbours up to L-1 is a canonical S and accepted, the same plus L is refused - whichever
+			// limb or byte of S carries the high bits
+			if rep == 0 {
+				bp, _ := edDecode(mustHex("5866666666666666666666666666666666666666666666666666666666666666"))
+				idKey := mustHex(edSmallOrder[0])
+				var svals []*big.Int
+				for k := 0; k <= 252; k += c.tierFixed(3, 1) {
+					p2 := new(big.Int).Lsh(big.NewInt(1), uint(k))
+					svals = append(svals, p2, new(big.Int).Sub(p2, big.NewInt(1)), new(big.Int).Add(p2, big.NewInt(1)))
+				}
+				for _, k := range []uint{62, 63, 64, 126, 127, 128, 190, 191, 192, 251, 252} {
+					svals = append(svals, new(big.Int).Lsh(big.NewInt(1), k))
+				}
+				svals = append(svals, new(big.Int).Sub(L, big.NewInt(1)), new(big.Int).Sub(L, big.NewInt(2)))
+				for _, sv := range svals {
+					if sv.Sign() <= 0 || sv.Cmp(L) >= 0 {
+						continue
+					}
+					Rs := edEncode(edScalarMult(sv, bp))
+					emit(ev{"op": "EdVerify", "A": B(idKey), "sig": B(append(append([]byte{}, Rs...), sEnc(sv)...)), "msg": B(msg), "valid": true, "cls": "S-range/canonical"})
+					if plus := new(big.Int).Add(sv, L); plus.BitLen() <= 256 {
+						emit(ev{"op": "EdVerify", "A": B(idKey), "sig": B(append(append([]byte{}, Rs...), sEnc(plus)...)), "msg": B(msg), "valid": false, "cls": "S-range/plus-L"})
 					}
 				}
 			}
